@@ -1,4 +1,5 @@
 import MemVerif.Lemmas.C01Pool
+import MemVerif.Lemmas.GrowCap
 /-!
 # C01 — `memory_pool` over the unordered free list: live allocations never overlap
 
@@ -188,5 +189,33 @@ example :
     (∀ op ∈ ops, op.Fits (intrusiveNodeSize 8)) ∧ BlocksOk g.p.arena.used ∧ g.p.arena.used.length = 2 ∧
       g.live.length = 5 := by
   decide
+
+
+/-! ### Collections: what an empty bucket is given always holds a node (D31)
+
+`memory_pool_collection` gives an empty free list `def_capacity(pool)` bytes. In the pinned version this was the plain
+share `block size / number of lists`, which the constructor only checks against `max_node_size`: a small node list
+needs `chunk_memory_offset` more, got a range in which not one chunk fits, and `insert` linked a list of zero chunks
+through a null pointer (`coll-small-identity`, block 10065, `allocate_node(99)`). The repaired `def_capacity(pool)`
+raises the share until `usable_size` reaches one node; the model's loop has a fuel of 64 rounds, and the theorems below
+show that the fuel is never what ends it. -/
+
+/-- small node list: from every default capacity the reserved range holds at least one node -/
+theorem C01_coll_reservation_holds_a_node_small (l : SmallList) (hn : l.ns < 2^32) (h0 : 0 < l.ns) (cap : Nat)
+    (hc : cap < 2^39) :
+    l.ns ≤ (AnyList.small l).usableSize (growCapacity (.small l) 64 cap) :=
+  Lemmas.growCapacity_64_small l hn h0 cap hc
+
+/-- unordered node list: the same (one round suffices) -/
+theorem C01_coll_reservation_holds_a_node_free (l : FreeList) (hn : l.ns < 2^32) (h0 : 0 < l.ns) (cap : Nat)
+    (hc : cap < 2^39) :
+    l.ns ≤ (AnyList.free l).usableSize (growCapacity (.free l) 64 cap) :=
+  Lemmas.growCapacity_enough_free l hn h0 64 cap hc (by omega)
+
+/-- the pinned version's share for the failing input: 100 bytes for the 99-byte list hold no node, the repaired
+capacity is `99 + 32` -/
+example : (AnyList.small (SmallList.new 99 0)).usableSize 100 = 68 ∧
+    growCapacity (.small (SmallList.new 99 0)) 64 100 = 131 ∧
+    (AnyList.small (SmallList.new 99 0)).usableSize 131 = 99 := by decide
 
 end MemVerif.Props.C01
